@@ -3,7 +3,16 @@
    is defined by the reference encoders of WireEnc.v (written from the Kafka schemas; anchored below on the literal byte
    strings of core/internal/consumer/kafka_client_test.go; cross-checked on every run against an independent Go encoder
    and an independent Python encoder by checks/c07.py, which also runs the real decoder and the model on the same
-   messages). *)
+   messages).
+
+   HYPOTHESIS OF THE TIE (storage_in_time): "is produced" below means "is offered to App.StorageChannel".  The code sends
+   every request with helpers.TimeoutSendStorageRequest(channel, request, 1), which gives up after one second; the
+   theorems (and the probe, whose channel is buffered and drained) assume the storage side accepts each request within
+   that second.  If it does not, the request is dropped silently and "exactly one update" / "one owner update per
+   assigned partition" fail for that message - outside the model, as for C11.
+   The order of the requests in the model is members, topics, partitions; the tie compares each message's requests as a
+   sorted multiset, so neither the order within a member (Go map iteration, C07_owner_updates_any_map_order) nor the
+   order ACROSS members is compared with the code. *)
 From Coq Require Import ZArith List Bool Permutation.
 From Burrow Require Import Int64 Wire WireEnc WireProofs WireRoundtripProofs.
 Import ListNotations.
@@ -158,7 +167,7 @@ Qed.
 Example C07_ex_metadata_decodes :
   process_message (fun _ => true) (enc_meta_key b_g) (enc_meta_value 3 C07_ex_value) 0
   = Done (flat_map (owner_requests (str_val b_g)) (mv_members C07_ex_value))
-         [1; 8; 0; 2; 1; 2; 9; 96; 2; 8; 2; 4; 2; 2; 9; 48; 2; 4].
+         [1; 8; 0; 2; 1; 2; 9; 2; 8; 2; 4; 2; 2; 9; 2; 4].
 Proof. vm_compute. reflexivity. Qed.
 
 Example C07_ex_four_updates :
@@ -179,7 +188,7 @@ Example C07_ex_repeated_topic_later_wins :
   process_message (fun _ => true) (enc_meta_key b_g)
     (enc_meta_value 1 (mkMV b_consumer 1 None None 0
        [mkWM b_cid1 None b_cid1 b_host1 0 0 None (Asg (mkAsg 0 [(b_t1, [0]); (b_t1, [1])] None))])) 0
-  = Done [SetConsumerOwner (str_val b_g) (str_val b_t1) 1 (str_val b_host1) (str_val b_cid1)] [1; 8; 2; 2; 9; 96; 2; 4; 2; 4].
+  = Done [SetConsumerOwner (str_val b_g) (str_val b_t1) 1 (str_val b_host1) (str_val b_cid1)] [1; 8; 2; 2; 9; 2; 4; 2; 4].
 Proof. vm_compute. reflexivity. Qed.
 
 (* a module called "c1" reading for cluster "t1": the tombstone goes to "t1" *)
